@@ -375,7 +375,7 @@ reg["C11"]["explanation"] += "; the real System.Tick admits every background cor
 reg["C11"]["outside"] = [o for o in reg["C11"]["outside"] if "System.Tick re-add predicate" not in o]
 
 LIFE = co(["VH_S_Lifecycle"], ["C10:lifecycle"], opts={"slots.callbacks": 0, "slots.locks": 0, "slots.schedules": 1, "slots.promises": 2, "slots.tasks": 2, "batch": 1, "faults": 0},
-          optsT={"slots.callbacks": 0, "slots.locks": 0, "slots.schedules": 2, "slots.promises": 3, "slots.tasks": 3, "batch": 2, "faults": 0}, reach={"VH_S_Lifecycle": ["first-firing", "second-firing"]}, pgquick=False)
+          optsT={"slots.callbacks": 0, "slots.locks": 0, "slots.schedules": 1, "slots.promises": 3, "slots.tasks": 2, "batch": 1, "faults": 0}, reach={"VH_S_Lifecycle": ["first-firing", "second-firing"]}, pgquick=False)
 reg["C10"]["harnesses"] += LIFE
 reg["C20"]["harnesses"] += [dict(h) for h in LIFE]
 reg["C10"]["explanation"] += "; one process, sequentially: create, fire, delete, re-create under the same id with another configuration, fire again - the second firing carries the second configuration only (process-global state such as caches keyed by id is part of the execution)"
@@ -432,3 +432,5 @@ reg["C06"]["outside"] = reg["C06"]["outside"] + ["PRAGMA statements other than t
 reg["C16"]["harnesses"].append({"name": "VH_C16_ProcessTwoWorkers", "pkg": "internal/app/subsystems/aio/store", "labels": ["C16:"], "reach": ["done"]})
 reg["C16"]["explanation"] += "; two workers running store.Process at once are sequentialised at the blocking Execute call (A up to Execute, B's whole batch, A continues; batches of 1..2, optional earlier batch): each Execute receives exactly its own worker's transactions and each submission its own results"
 reg["C15"]["explanation"] += "; acceptance obligations (sat queries over all executions reaching the kernel): the boundary values of a well-formed request - zero and large leases and timeouts, each completion state, with and without idempotency key, both receiver forms - are accepted by each front end"
+reg["C19"]["harnesses"].append({"name": "VH_SN_Resolve2", "pkg": "internal/app/subsystems/aio/sender", "labels": ["C19:"], "reach": ["second-message"]})
+reg["C19"]["explanation"] += "; a second message handled by the same sender worker is resolved by its own stored receiver exactly as a first one"
